@@ -559,6 +559,7 @@ def run_hists(ctx, hists, exes, drv, flavours):
 # ----------------------------------------------------------------------------- model bridge
 S_ARGS, S_HDR, S_POSTHDR, S_START0, S_STARTCC, S_START, S_CROP, S_SCAN, S_FINISH = 1, 2, 3, 4, 5, 6, 7, 8, 9
 S_CDEF, S_CSTART, S_CSCAN, S_CFINISH, S_RDCOEF, S_WRCOEF, S_XTHROW, S_MEMDEST, S_NOIMAGE, S_RDCOEF2, S_CSTART2, S_POSTHDR2 = 10, 11, 12, 13, 14, 15, 16, 17, 18, 19, 20, 21
+S_LARGS, S_LSCALE = 22, 23
 ICC_IDS = (11, 26)
 PARAM_NAMES = ["stopOnWarning", "bottomUp", "noRealloc", "quality", "subsamp", "jpegWidth", "jpegHeight", "precision", "colorspace",
                "fastUpsample", "fastDCT", "optimize", "progressive", "scanLimit", "arithmetic", "lossless", "losslessPSV", "losslessPt",
@@ -568,7 +569,7 @@ PARAM_NAMES = ["stopOnWarning", "bottomUp", "noRealloc", "quality", "subsamp", "
 
 def parse_state(S):
     """'c:.. d:.. p:..' -> dict(c=[..]|None, d=[..]|None, p=[..])"""
-    out = {"c": None, "d": None, "p": [], "m": None, "k": None}
+    out = {"c": None, "d": None, "p": [], "m": None, "k": None, "s": None}
     for part in S.split():
         k, v = part[0], part[2:]
         if v == "-":
@@ -676,6 +677,13 @@ def to_model_call(idx, toks, res, pre, post, flags):
         else:
             raise Unsupported("stage " + st)
 
+    def flagargs(fl):
+        a.update({"fl_bottomup": 1 if fl & 2 else 0, "fl_fastupsample": 1 if fl & 256 else 0, "fl_norealloc": 1 if fl & 1024 else 0,
+                  "fl_fastdct": 1 if fl & 2048 else 0, "fl_accuratedct": 1 if fl & 4096 else 0, "fl_stoponwarning": 1 if fl & 8192 else 0,
+                  "fl_progressive": 1 if fl & 16384 else 0, "fl_limitscans": 1 if fl & 32768 else 0})
+        if st == "W" and rc != 0 and (fl & 8192):
+            raise Unsupported("stop-on-warning abort")
+
     if op == "set":
         return "set", {"param": int(toks[1]), "value": int(toks[2])}
     if op == "sf":
@@ -692,11 +700,12 @@ def to_model_call(idx, toks, res, pre, post, flags):
         a["fail"] = S_ARGS
         a["bufmode"] = 2
         k = int(toks[1]) % 8
-        return {0: "c.8", 4: "c.8", 1: "d.8.100", 5: "d.8.100", 2: "h.10", 3: "t.1", 6: "dy.1", 7: "ey"}[k], a
-    if op == "h":
+        return {0: "c.8", 4: "c.8", 1: "d.8.100", 5: "d.8.100", 2: "h.10", 3: "t.10", 6: "dy.1", 7: "ey"}[k], a
+    if op in ("h", "lh"):
         i, kind, selfc = dec_facts(toks[1])
         dec_fail("h")
-        if rc == 0 and post["d"][2] == 0 and post["d"][0] == 200:
+        if (rc == 0 or (op == "lh" and T == 6)) and post["d"][2] == 0 and post["d"][0] == 200:
+            a["fail"] = 0
             # EOI before any SOS: jpeg_read_header aborts and reports a tables-only stream
             a.update({"tables_only": 1, "f_soi": 1, "f_sof": post["d"][2]})
         has = 1 if ((rc == 0 or st == "W") and not a.get("tables_only") and post["d"][9] == 1 and (pre["d"][9] == 0 or i in ICC_IDS)) else 0
@@ -718,6 +727,13 @@ def to_model_call(idx, toks, res, pre, post, flags):
             sh = (pp["jpegHeight"] * pq["sfn"] + pq["sfd"] - 1) // max(pq["sfd"], 1)
             a["skip_tail"] = 1 if pq["cy"] + pq["ch"] != sh else 0
         return "d.%d.%d%d%d" % (bits, selfc, crop, merged), a
+    if op == "ld":
+        flagargs(int(toks[3]))
+        i, kind, selfc = dec_facts(toks[1])
+        dec_fail("d")
+        merged = post["d"][10] if (rc == 0 or st == "W" or a["fail"] in (S_STARTCC, S_START, S_SCAN, S_FINISH)) else 0
+        a.update({"pf": int(toks[2]), "sfn": pp["sfn"], "sfd": pp["sfd"]})
+        return "ld.%d%d" % (selfc, merged), a
     if op == "uy":
         a["img"] = 5000 + idx
         a["pf"] = int(toks[4])
@@ -782,6 +798,13 @@ def to_model_call(idx, toks, res, pre, post, flags):
         bufargs(toks[6], {"n": 4096, "s": 100})
         comp_fail("c")
         return "c.%d" % bits, a
+    if op == "lc":
+        flagargs(int(toks[7]))
+        a.update({"w": int(toks[1]), "h": int(toks[2]), "img": 7500 + int(toks[3]), "pf": int(toks[4]), "ss": int(toks[5]), "qual": int(toks[6]),
+                  "prec_in_range": 1 if 2 <= pq["precision"] <= 8 else 0})
+        bufargs("n", {"n": 4096, "s": 100})
+        comp_fail("c")
+        return "lc", a
     if op == "cy":
         a.update({"w": int(toks[1]), "h": int(toks[2]), "img": 8000 + int(toks[3]), "pf": 0})
         bufargs(toks[4], {"n": 4096, "s": 100})
@@ -793,30 +816,43 @@ def to_model_call(idx, toks, res, pre, post, flags):
         if T == 8:
             a["fail"] = 0
         return "ey", a
-    if op == "t":
-        if len(toks) > 5:
-            raise Unsupported("two transforms")
+    if op in ("t", "lt"):
+        legacy = op == "lt"
+        two = (not legacy) and len(toks) > 5
+        if legacy:
+            flagargs(int(toks[4]))
         i, kind, selfc = dec_facts(toks[1])
         if i in LIB and LIB[i]:
             a.update({"jw": LIB[i][0], "jh": LIB[i][1], "jprec": LIB[i][4]})     # tj3Transform does not update the parameters
         opts = int(toks[3])
         a.update({"nooutput": 1 if opts & 16 else 0, "copynone": 1 if opts & 64 else 0, "x_optimize": 1 if opts & 256 else 0,
-                  "x_progressive": 1 if opts & 32 else 0, "x_arithmetic": 1 if opts & 128 else 0})
-        bufargs(toks[4], {"n": 4096, "s": 100})
+                  "x_progressive": 1 if opts & 32 else 0, "x_arithmetic": 1 if opts & 128 else 0, "copynone_all": 1 if opts & 64 else 0})
+        if two:
+            o2 = int(toks[6])
+            a.update({"nooutput2": 1 if o2 & 16 else 0, "copynone2": 1 if o2 & 64 else 0, "x_optimize2": 1 if o2 & 256 else 0,
+                      "x_progressive2": 1 if o2 & 32 else 0, "x_arithmetic2": 1 if o2 & 128 else 0,
+                      "copynone_all": 1 if (opts & 64 and o2 & 64) else 0})
+            flags["dest_imprecise"] = True
+        bufargs("n" if legacy else toks[4], {"n": 4096, "s": 100})
         if rc != 0 and st != "W":
             if E and E["side"] == "c":
+                if two:
+                    raise Unsupported("two transforms, compressor-side failure")
                 if E["gs"] == 100:
                     a["fail"] = S_MEMDEST if E["code"] == "BUFSZ" else S_WRCOEF
                     flags["imprecise"] = True
                 else:
                     a["fail"] = S_CFINISH
-            elif T is not None and T in (12, 13, 14, 15):
-                a["fail"] = S_XTHROW if T == 13 else S_CROP
-            elif T == 6:
-                a["fail"] = S_CROP
+            elif T is not None and T in (12, 13, 14, 15, 25, 6):
+                if legacy and (int(toks[4]) & 1024) and T != 13:
+                    a["fail"] = S_LSCALE
+                else:
+                    a["fail"] = S_XTHROW if T == 13 else S_CROP
             else:
                 dec_fail("t")
-        return "t.%d" % selfc, a
+        if legacy:
+            return "lt.%d" % selfc, a
+        return "t.%d%d" % (selfc, 1 if two else 0), a
     raise Unsupported(op)
 
 
@@ -863,7 +899,7 @@ def model_lines(ctx, drv, hists, ref_lines):
                 if not continue_ok:
                     continue
             nprobe = 1
-            if calls[-1][0] in ("gi", "tb") and len(calls) >= 2 and calls[-2][0] == "h":
+            if calls[-1][0] in ("gi", "tb") and len(calls) >= 2 and calls[-2][0] in ("h", "lh"):
                 nprobe = 2
             ic = 1 if inst in "ct" else 0
             idd = 1 if inst in "dt" else 0
@@ -934,6 +970,8 @@ def check_model(ctx, h, stream, res, m):
         if ms.get("k") and im.get("k") and ((ms["k"][0] == 1) != (im["k"][0] == 1 and im["k"][1] == 1) or
                                             (len(ms["k"]) > 1 and len(im["k"]) > 2 and (ms["k"][1] == 1) != (im["k"][2] == 1))):
             diffs.append("d.marker reader methods: model original=%d impl %s" % (ms["k"][0], im["k"]))
+        if ms.get("s") and im.get("s") and ms["s"] != im["s"] and im["d"] is not None:
+            diffs.append("d.sticky marker saving (COM, APP2, APPn): model %s impl %s" % (ms["s"], im["s"]))
         if ms["p"] != im["p"]:
             bad = [(PARAM_NAMES[j], ms["p"][j], im["p"][j]) for j in range(min(len(ms["p"]), len(im["p"]))) if ms["p"][j] != im["p"][j]]
             diffs.append("params " + str(bad[:4]))
